@@ -467,3 +467,34 @@ package fontscan
 //@   ensures [weak-then-score] implies(!sf.scores[i].strong && !sf.scores[j].strong && hasScript(sf.database[sf.footprints[i]].Scripts, sf.script) == hasScript(sf.database[sf.footprints[j]].Scripts, sf.script), result == (sf.scores[i].score < sf.scores[j].score || (sf.scores[i].score == sf.scores[j].score && tieBreak(sf.database[sf.footprints[i]], sf.database[sf.footprints[j]]))))
 //@   ensures [irreflexive] implies(i == j, !result)
 //@   modifies nothing
+//
+// ---------------------------------------------------------------------------------------------
+// Property C16, mechanism "refreshSystemFontsIndex ignores unreadable cache and rescans": the refresh fails exactly
+// when finding the font directories, scanning them, validating the new index or writing it back fails - never
+// because the existing cache file could not be read. The four outcomes are opaque facts about the environment
+// (each trusted callee reports its own).
+//@ opaque dirsFail(cachePath string) bool
+//@ opaque scanFail(cachePath string) bool
+//@ opaque indexInvalid(cachePath string) bool
+//@ opaque writeFail(cachePath string) bool
+//@ trusted DefaultFontDirectories
+//@   ensures [outcome] (result1 != nil) == dirsFail("")
+//@   modifies unspecified
+//@ trusted deserializeIndexFile
+//@   modifies unspecified
+//@ trusted scanFontFootprints
+//@   ensures [outcome] (result1 != nil) == scanFail("")
+//@   modifies unspecified
+//@ trusted systemFontsIndex.assertValid
+//@   ensures [outcome] (result != nil) == indexInvalid("")
+//@   modifies unspecified
+//@ trusted systemFontsIndex.serializeToFile
+//@   ensures [outcome] (result != nil) == writeFail("")
+//@   modifies unspecified
+//@ trusted std:fmt.Errorf
+//@   ensures [non-nil] result != nil
+//@   modifies nothing
+//@ func refreshSystemFontsIndex C16
+//@   mode bv
+//@   ensures [fails-only-for-these-reasons] (result1 != nil) == (dirsFail("") || scanFail("") || indexInvalid("") || writeFail(""))
+//@   modifies unspecified
